@@ -13,22 +13,29 @@
     number of remaining inclusion instants with the invariant "everything below the heap minimum
     has been decided" (`RSet.loop_spec`).
   * `rset_len`: the published `_len` (`total`) is the length of the specification.
-  * `history_inv`: for EVERY op sequence over addRRule / addRDate / addExRule / addExDate / any
+  * `history_inv_any`: for EVERY op sequence over addRRule / addRDate / addExRule / addExDate / any
     query (iterPartial k = `.take k`, iterFull, count, between, after, before, index, slice, in,
     xafter) / `open_ k` (create an iterator, take k, KEEP it) / `resume j k`, cache on or off,
-    member streams sorted, in which **no iterator created before a mutator is advanced after it**
-    (`NoStale`), every observation equals the specification of the members present at that
-    moment (`specOps`: list semantics on `setSpec`, for a kept iterator its next k instants).
+    member streams sorted — INCLUDING iterators created before a mutator and advanced after it —
+    every observation equals the specification of the members present at that moment (`specOps`:
+    list semantics on `setSpec`, for a kept iterator its next k instants), the only observations
+    left unspecified being what an iterator created before an earlier mutator ITSELF yields
+    (`staleAt`; the property speaks of "every later iteration and query").  This is the statement
+    that was FALSE before the repair of D-C10-stale in /repo (pending_fixes/D-C10-stale.diff): a
+    stale `_iter_cached` marked the new empty cache complete, a stale `_iter` published its old
+    total as `_len`.  In the repaired code an iterator of an invalidated generation runs on its own
+    cache list and generator and writes nothing of the object (`cache is self._cache`,
+    `generation == self._generation`): in the model it runs on the machine of its own generation
+    (`RSet.resumeCached`), and the invariant `Good` is preserved by EVERY op (`good_step_any`).
+    An iterator created before a mutator whose body has not started yet belongs to the current
+    generation when it is first advanced (model and code alike); `Good.hcg/hdg` keep such
+    iterators apart from the ones the bookkeeping follows.
+  * `history_inv`: the same with exact equality of ALL observations for histories in which no
+    iterator created before a mutator is advanced after it (`NoStale`) — kept: it also pins what
+    every kept iterator yields.
     Composition of `rset_iter_eq_spec` (what the generator yields), the invariant of the cache
     machine of C11 run one thread at a time (`Cache.Solo`, `runQuery_spec`, `takeVals_spec`) and
     `C12.gen_eq_spec`/`fast_eq_spec`.
-
-  The statement WITHOUT the hypothesis,
-      ∀ c ops, (∀ op ∈ ops, opSorted op) → runOps (newState c) ops = specOps {} ops,
-  is FALSE for the code as it is (known finding D-C10-stale): the `example`s at the end run the
-  model on the witness histories and show observations different from the specification — an
-  iterator created before a mutator and advanced after it marks the NEW empty cache complete
-  (cached), or raises TypeError, or publishes the old total as `_len` (uncached).
 -/
 import DateutilVerif.Proofs.RRuleSetSpec
 import DateutilVerif.Proofs.CacheGlobal
@@ -77,6 +84,13 @@ theorem history_inv (cacheOn : Bool) (ops : List Op) (hsorted : ∀ op ∈ ops, 
     runOps (newState cacheOn) ops = specOps {} ops :=
   history_good ops (newState cacheOn) {} (good_init cacheOn) hsorted hfresh hfit
 
+/-- **history_inv_any** (`history_inv` without `NoStale`; false before the repair of D-C10-stale).  EVERY history — also
+    with iterators created before a mutator and advanced after it, cache on or off: every observation other than what
+    such a stale iterator itself yields equals the specification of the members present at that moment. -/
+theorem history_inv_any (cacheOn : Bool) (ops : List Op) (hsorted : ∀ op ∈ ops, opSorted op) (hfit : AllFit {} ops) :
+    Agree {} ops (runOps (newState cacheOn) ops) (specOps {} ops) :=
+  history_good_any ops (newState cacheOn) {} (good_init cacheOn) hsorted hfit
+
 /-- in particular for histories whose iterators are all dropped at once (iterPartial k = `.take k`) -/
 theorem history_inv_dropped (cacheOn : Bool) (ops : List Op) (hsorted : ∀ op ∈ ops, opSorted op)
     (hq : ∀ op ∈ ops, ∀ j k, op ≠ .resume j k) (hfit : AllFit {} ops) :
@@ -105,25 +119,29 @@ example : runOps (newState true) [.addRRule [0, 1, 2, 3], .open_ 2, .q (.index 1
           specOps {} [.addRRule [0, 1, 2, 3], .open_ 2, .q (.index 1), .resume 0 1, .addRDate 9, .open_ 0,
                       .resume 1 3, .q .count] := by decide
 
-/-- the hypothesis is necessary — D-C10-stale in the model (cache on): 13 daily instants, an iterator
-    that has taken one, `rdate(20)`, the stale iterator run to its end; then `list(s)` is EMPTY and
-    `count()` is 13, where the specification says 14 instants -/
+/-- the former witness of D-C10-stale (cache on): 13 daily instants, an iterator that has taken one, `rdate(20)`, the stale
+    iterator run to its end; then `list(s)` and `count()`.  Before the repair the model gave `[]` and 13 -/
 def staleWitness : List Op :=
   [.addRRule [0, 1, 2, 3, 4, 5, 6, 7, 8, 9, 10, 11, 12], .open_ 1, .addRDate 20, .resume 0 100, .q .iterAll, .q .count]
 
-example : (runOps (newState true) staleWitness).drop 4 = [some (.list []), some (.nat 13)] := by decide
+-- now: the stale iterator yields the remaining 12 instants of the OLD sequence, and the set is intact
+example : (runOps (newState true) staleWitness).drop 3 =
+    [some (.list [1, 2, 3, 4, 5, 6, 7, 8, 9, 10, 11, 12]), some (.list [0, 1, 2, 3, 4, 5, 6, 7, 8, 9, 10, 11, 12, 20]), some (.nat 14)] := by decide
 example : (specOps {} staleWitness).drop 4 =
     [some (.list [0, 1, 2, 3, 4, 5, 6, 7, 8, 9, 10, 11, 12, 20]), some (.nat 14)] := by decide
-example : runOps (newState true) staleWitness ≠ specOps {} staleWitness := by decide
 example : ¬ NoStale {} staleWitness := by
   intro h
   have h4 : (1 : Nat) = 2 := h.2.2.2.1 1 1 rfl
   omega
--- cache off: the stale generator publishes its old total
+example : staleAt (specStep (specStep (specStep {} staleWitness[0]).1 staleWitness[1]).1 staleWitness[2]).1 (.resume 0 100) = true := by decide
+-- cache off: the stale generator no longer publishes its old total
 example : (runOps (newState false) [.addRRule [0, 1, 2], .open_ 1, .addRDate 20, .resume 0 100, .q .count]).getLast?
-          = some (some (.nat 3)) := by decide
--- cache on, generator already exhausted before the mutator: the stale iterator raises TypeError (`i < None`)
-example : (runOps (newState true) [.addRRule [0, 1, 2], .open_ 1, .addRDate 20, .resume 0 100]).getLast?
-          = some (some (.err .TypeError)) := by decide
+          = some (some (.nat 4)) := by decide
+-- cache on, generator already exhausted before the mutator: the stale iterator ends quietly (was TypeError `i < None`)
+example : (runOps (newState true) [.addRRule [0, 1, 2], .open_ 1, .q .iterAll, .addRDate 20, .resume 0 100, .q .iterAll]).drop 4
+          = [some (.list [1, 2]), some (.list [0, 1, 2, 20])] := by decide
+-- an iterator created before a mutator but not yet started belongs to the new generation
+example : (runOps (newState true) [.addRRule [0, 1, 2], .open_ 0, .addRDate 20, .resume 0 100, .q .count]).drop 3
+          = [some (.list [0, 1, 2, 20]), some (.nat 4)] := by decide
 
 end C10
